@@ -474,6 +474,11 @@ func cmdProp(args []string) int {
 				}
 			}
 		}
+		// a forbidden-call clause (`callsite f: false`) has no instance on the tree it was written
+		// for, by design: a reachable matching call (sat) is the violation, whatever the baseline says
+		if o.Kind == "callsite" && o.Status == "sat" && (strings.HasSuffix(name, ": false") || strings.Contains(name, ": false#")) {
+			universal = true
+		}
 		if o.Status == "sat" || universal {
 			handleFailure(name, o, owner[name], universal)
 		} else {
